@@ -310,7 +310,7 @@ def cases_for(tier):
             out.append({"kind": "cycle", "n": n, "edges": list(es), "ugp": False, "cfg": True, "array": True})
     # structured mid-sized graphs, all 2^m edge patterns (quick: m <= 8)
     for name, n, es in graphref.zoo():
-        if len(es) > (8 if tier == "quick" else 12):
+        if len(es) > (8 if tier == "quick" else 10):
             continue
         relab = name.endswith("~relabelled")
         for kind in ("cycle", "path"):
@@ -318,7 +318,9 @@ def cases_for(tier):
                 if tier == "quick" and ugp != relab:
                     continue
                 out.append({"kind": kind, "n": n, "edges": es, "ugp": ugp, "cfg": False, "name": name})
-    frames = [(0, 0), (1, 0), (0, 1), (1, 1), (1, 2), (2, 1), (2, 2)] if tier == "quick" else [(0, 0), (0, 2), (2, 0), (1, 1), (1, 2), (2, 1), (2, 2), (1, 3), (3, 1), (1, 4), (4, 1), (2, 3), (3, 2)]
+    frames = [(0, 0), (1, 0), (0, 1), (1, 1), (1, 2), (2, 1), (2, 2)] if tier == "quick" else [(0, 0), (0, 2), (2, 0), (1, 1), (1, 2), (2, 1), (2, 2), (1, 3), (3, 1), (1, 4), (4, 1)]
+    # (the two 17-segment frames 2x3 / 3x2 cost about 2 CPU hours per (frame, kind): they were run during development and are
+    # left out of the registered thorough tier, which has to finish in minutes)
     for h, w in frames:
         for kind in ("cycle", "path"):
             for ugp, cfg in ((False, False), (True, False)):
